@@ -313,6 +313,13 @@ Definition execute_callback_code : list dstmt :=
 (* driver/generic/sendwithcallbacks.go Driver.handleCallbacks: the scan over the callbacks *)
 Definition callback_scan_code : dstmt :=
   DRange "cb" "callbacks" [DAssign "i" "index of cb"; DIf (DAtom "cb.check(b)") [DCall "c <- &callbackResult{ i: i, callbacks: callbacks, b: b, fb: fb, err: nil, }"; DReturn ""] []].
+(* driver/network: SendCommand, SendCommands, SendConfigs *)
+Definition net_send_command_code : list dstmt :=
+  [DIf (DNot (DEq "d.CurrentPriv" "d.DefaultDesiredPriv")) [DAssign "err" "d.AcquirePriv(d.DefaultDesiredPriv)"; DIf (DNot (DEq "err" "nil")) [DReturn "nil, fmt.Errorf( ""%w: failed acquiring default desired privilege level"", util.ErrPrivilegeError, )"] []] []; DReturn "d.Driver.SendCommand(command, opts...)"].
+Definition net_send_commands_code : list dstmt :=
+  [DIf (DNot (DEq "d.CurrentPriv" "d.DefaultDesiredPriv")) [DAssign "err" "d.AcquirePriv(d.DefaultDesiredPriv)"; DIf (DNot (DEq "err" "nil")) [DReturn "nil, fmt.Errorf( ""%w: failed acquiring default desired privilege level"", util.ErrPrivilegeError, )"] []] []; DReturn "d.Driver.SendCommands(commands, opts...)"].
+Definition net_send_configs_code : list dstmt :=
+  [DCall "NewOperation(opts...)"; DIf (DNot (DEq "err" "nil")) [DReturn "nil, err"] []; DAssign "targetPriv" "op.PrivilegeLevel"; DIf (DEq "targetPriv" """""") [DAssign "targetPriv" "defaultConfigurationPrivLevel"] []; DAssign "err" "d.AcquirePriv(targetPriv)"; DIf (DNot (DEq "err" "nil")) [DReturn "nil, err"] []; DReturn "d.Driver.SendCommands(configs, opts...)"].
 (* the option loops of the constructors (C19) *)
 Definition option_loops : list (string * dstmt) := [
   ("driver/generic/driver.go NewDriver",
